@@ -393,3 +393,6 @@ func TestC18(t *testing.T) {
 		}
 	})
 }
+
+// FuzzC18 is the native coverage-guided supplement of the generated part (thorough tier only).
+func FuzzC18(f *testing.F) { fuzzProperty(f, TestC18) }
